@@ -85,7 +85,7 @@ def HostMap.innerAdd (m : HostMap) (a : Addr) (hi : HostInfo) : HostMap :=
   | l =>
     let l' := hi :: eraseHI l hi.id
     let m' := m.setList a l'
-    if l'.length > nebula_MaxHostInfosPerVpnIp then
+    if l'.length > hsm_MaxHostInfosPerVpnIp then
       match l'.getLast? with
       | some last => m'.deleteHostInfo last
       | none => m'
@@ -166,7 +166,7 @@ def LH.learn (lh : LH) (id : Nat) (owner : Addr) (u : UNode) : LH :=
 def LH.report (lh : LH) (id : Nat) (owner : Addr) (u : UNode) : LH :=
   let r := lh.get id
   let cur := (alookup owner r.reported).getD []
-  lh.put id { r with reported := ainsert owner ((u :: cur).take nebula_MaxRemotes) r.reported }
+  lh.put id { r with reported := ainsert owner ((u :: cur).take hsm_MaxRemotes) r.reported }
 
 def LH.block (lh : LH) (id : Nat) (u : UNode) : LH :=
   let r := lh.get id
@@ -296,7 +296,7 @@ structure Node where
 def Node.init (c : Cfg) : Node :=
   { cfg := c,
     p := { wheel := Wheel.new c.interval
-             (BitVec.toInt (nebula_hsTimeout (BitVec.ofInt 64 c.retries) (BitVec.ofNat 64 c.interval))) } }
+             (BitVec.toInt (hsm_hsTimeout (BitVec.ofInt 64 c.retries) (BitVec.ofNat 64 c.interval))) } }
 
 structure Out where
   tx : List Tx := []
@@ -335,7 +335,7 @@ def PSide.deletePending (n : PSide) (p : Pending) : PSide :=
 
 /-- cachePacket -/
 def Pending.cache (p : Pending) (c : Cached) : Pending :=
-  if p.store.length < nebula_maxCachedPackets then { p with store := p.store ++ [c] } else p
+  if p.store.length < hsm_maxCachedPackets then { p with store := p.store ++ [c] } else p
 
 /-- StartHandshake(vpnAddr, cacheCb) where the callback is `cb` on the pending entry. -/
 def PSide.startHandshake (c : Cfg) (n : PSide) (a : Addr) (cb : Pending → Pending) : PSide :=
